@@ -93,14 +93,27 @@ def _payload_of(kind):
 
 # ----------------------------------------------------------------------
 # tiny affine algebra on index terms:  base*D + t
-def linear_index(t):
+def linear_index(t, loop_iters=None):
     """Decompose an index term into (mult_terms, addends).
 
     Returns ('keyidx',) for ev.key[0];
             ('scaled', D, rest) for ev.key[0]*D + rest   (D a term)
-            None otherwise."""
+            None otherwise.
+    With loop_iters, a loop variable over range(key[0]*D, key[0]*D + D) is ('scaled', D, ('fullrange', D))."""
     if t == KEYIDX:
         return ("keyidx",)
+    if t[0] == "loopvar" and loop_iters is not None:
+        it = loop_iters.get(t[1])
+        if it is not None and it[0] == "call" and it[1] == ("builtin", "range") and len(it[2]) == 2:
+            lo, hi = it[2]
+            li = linear_index(lo)
+            if li is not None and li[0] == "scaled" and li[2] == ("const", 0):
+                from .rules.linear import diff
+                d = diff(hi, lo)
+                dd = diff(li[1], ("const", 0))
+                if d is not None and dd is not None and d == dd:
+                    return ("scaled", li[1], ("fullrange", li[1]))
+        return None
     if t[0] == "binop" and t[1] == "Add":
         for a, b in ((t[2], t[3]), (t[3], t[2])):
             if a[0] == "binop" and a[1] == "Mult":
@@ -118,6 +131,8 @@ def offset_range(rest, D, loop_iters):
     """Is the offset term *rest* provably within [0, D)?
 
     loop_iters: {loop uid: iter term}.  Returns a description string or None."""
+    if rest[0] == "fullrange" and rest[1] == D:
+        return "loop over the key's whole slice"
     if rest[0] == "loopvar":
         it = loop_iters.get(rest[1])
         if it is not None and it == ("call", ("builtin", "range"), (D,)):
@@ -142,10 +157,12 @@ def ring_coverage(idx, loop_iters):
     """Does the generic child index idx = key[0]*D + X enumerate *all* D slots of the key as its loop runs?
 
     True for X = t and X = (e + t) % D with t a loop variable over range(D) and e independent of t."""
-    li = linear_index(idx)
+    li = linear_index(idx, loop_iters)
     if li is None or li[0] != "scaled":
         return False
     D, rest = li[1], li[2]
+    if rest == ("fullrange", D):
+        return True
 
     def full_loopvar(t):
         return t[0] == "loopvar" and loop_iters.get(t[1]) == ("call", ("builtin", "range"), (D,))
